@@ -9,7 +9,8 @@ open Atomman Atomman.C05
     norm px py pz n  v00 … v22  o0 o1 o2  x0 y0 z0 …
       -> "vects(9) origin(3) | pos(3n) | flags(3n) | transform(9) | spos in the (flipped) old box (3n) | flipped(0/1)"
     hist px py pz n  v00 … v22  o0 o1 o2  x0 … ; op ; op ; …      (one System object, `;` is a token)
-      ops:  spos | wrap | rebuild | norm | boxset s v(9) o(3) | setvects v(9) | setorigin o(3) | setpbc px py pz | setpos x0 y0 z0 …
+      ops:  spos | wrap | rebuild | norm | boxset s v(9) o(3) | setvects v(9) | setorigin o(3) | setpbc px py pz |
+            editpbc axis(0..2) value(0/1) | setpos x0 y0 z0 …
       -> one section per op, joined by " ; ":
            spos      "S spos(3n)"
            wrap      "W vects(9) origin(3) | pos(3n) | flags(3n) | spos before(3n)"
@@ -76,6 +77,10 @@ def parseOp (toks : List String) : Option (Op Rat) :=
     match parseBool? a, parseBool? b, parseBool? c with
     | some a, some b, some c => some (.setPbc ⟨a, b, c⟩)
     | _, _, _ => none
+  | ["editpbc", k, v] =>
+    match k.toNat?, parseBool? v with
+    | some k, some v => if k < 3 then some (.editPbc k v) else none
+    | _, _ => none
   | "setpos" :: rest =>
     match parseRats? rest with
     | some xs => if xs.length % 3 ≠ 0 then none else some (.setPos (chunk3 xs))
@@ -121,7 +126,9 @@ def handleC05 (toks : List String) : String :=
     | none => err "format"
     | some r =>
       if M3.det r.box.vects = 0 || r.pos.isEmpty then err "value" else
-      match normalize? Rat.floor pad001 ratSqrt r.box r.pbc r.pos with
+      -- set_abc's refusal of a lattice angle outside (0, 180): ValueError
+      if !angleGuard ratSqrt (flip r.box).vects then err "value" else
+      match normalizeG? Rat.floor pad001 ratSqrt r.box r.pbc r.pos with
       | none => err "assert"
       | some z =>
         if !transformOK z.transform then err "assert" else
